@@ -37,7 +37,8 @@ def gen_plan(rng, tier):
         for i in range(nobs):
             sub = rng.choice(["full", "full", "prefix", "tail", "interleaved", "random", "fewer_reps"])
             members.append({"seed": rng.getrandbits(32), "subset": sub, "kind": rng.choice(["real", "real", "real", "int", "int_zero_free", "mean_hit"]),
-                            "cov": rng.choice([None, None, "covA", "sys_b", "Zc"]), "coefs": [rng.choice([1.0, 0.5, -2.0]) for _ in ens], "mag": rng.choice([1.0, 1.0, 1e-3, 1e6])})
+                            "cov": rng.choice([None, None, "covA", "sys_b", "Zc"]), "coefs": [rng.choice([1.0, 0.5, -2.0]) for _ in ens], "mag": rng.choice([1.0, 1.0, 1e-3, 1e6]),
+                            "nonlinear": rng.random() < 0.3})
         if rng.random() < 0.4:
             for m in members:
                 if m["cov"]:
@@ -109,6 +110,9 @@ def build_member(group, m, pobs=False):
         co = pe.cov_Obs(cd["means"] if cd["dim"] > 1 else cd["means"][0], np.array(cd["cov"]) if cd["dim"] > 1 else cd["cov"][0][0], m["cov"])
         co = co if isinstance(co, pe.Obs) else co[rnd.randrange(cd["dim"])]
         tot = tot + (m["mag"] * rnd.choice([1.0, 0.25])) * co
+    if m.get("nonlinear") and not pobs and m["kind"] == "real":
+        tot = tot * tot / m["mag"]           # replica means differ from the central value
+        tot._value = tot.value * (1.0 + 1e-3)
     return tot
 
 
